@@ -255,14 +255,24 @@ def run(rep, tier):
                   "out.y = spline->Calculate(out.x)", "csg_resample value output is %s" % ys.get("out.y()"), fm.loc())
         rep.check("CalculateDerivative(der.x())" in ys.get("der.y()", "") and "spline" in ys.get("der.y()", ""), "R12.7", "derivative-output",
                   "der.y = spline->CalculateDerivative(der.x) of the same spline object", "csg_resample derivative output is %s" % ys.get("der.y()"), fm.loc(), sample=True)
-        fl = [(show(n["args"][0]), show(n["args"][1])) for n in fm.walk() if n.get("k") in ("opcall",) and n.get("op") == "=" and ".flags(" in show(n["args"][0])]
-        as_assign = [(show(n["lhs"]), show(n["rhs"])) for n in fm.walk() if n.get("k") == "assign" and n["op"] == "=" and ".flags(" in show(n["lhs"])]
-        fl += as_assign
-        rep.check(("out.flags(i)", "in.flags(j)") in fl and ("der.flags(i)", "in.flags(j)") in fl, "R12.7", "flags-copied",
-                  "flags copied from the matching input point", "csg_resample flag copies are %s" % fl, fm.loc())
-        init = [show(n["args"][1]) for n in fm.walk() if n.get("k") == "opcall" and n.get("op") == "=" and show(n["args"][0]) in ("out.flags()", "der.flags()")]
-        rep.check(len(init) == 2 and all("'o'" in s for s in init), "R12.7", "flags-default", "flags start as 'o'", "csg_resample default flags: %s" % init, fm.loc())
-
+        ffm = Fold(fm, inline=False, opaque_types=r"Table").run()
+        fst = [e for e in ffm.events if e["kind"] == "store" and re.match(r"^\w+\.flags\(\w+\)$", e["target"])]
+        tabs = sorted({e["target"].split(".")[0] for e in fst})
+        vals = {str(e["value"]) for e in fst}
+        idxs = {str(e["idx"][0]) if e.get("idx") else e["target"] for e in fst}
+        okc = len(fst) == 2 and len(tabs) == 2 and len(vals) == 1 and len(idxs) == 1 and str(getattr(fst[0]["value"], "func", "")) == "flags" and str(fst[0]["value"].args[0]) not in tabs
+        rep.check(okc, "R12.7", "flags-copied", "value and derivative table get the flag of the same matching input point at the same output point",
+                  "csg_resample flag copies are %s" % [(e["target"], str(e["value"])[:60]) for e in fst], fm.loc())
+        # default 'o': assignment of a vector filled with 'o' or std::fill over the whole flag vector
+        dflt = set()
+        for n in fm.walk():
+            if n.get("k") == "opcall" and n.get("op") == "=" and re.match(r"^\w+\.flags\(\)$", show(n["args"][0])) and "'o'" in show(n["args"][1]):
+                dflt.add(show(n["args"][0]).split(".")[0])
+            if n.get("k") == "call" and (n.get("callee") or "") == "std::fill" and len(n.get("args") or []) == 3 and "'o'" in show(n["args"][2]):
+                m0, m1 = re.match(r"^(\w+)\.flags\(\)\.begin\(\)$", nows(show(n["args"][0]))), re.match(r"^(\w+)\.flags\(\)\.end\(\)$", nows(show(n["args"][1])))
+                if m0 and m1 and m0.group(1) == m1.group(1):
+                    dflt.add(m0.group(1))
+        rep.check(dflt == set(tabs) and len(dflt) == 2, "R12.7", "flags-default", "flags of both output tables start as 'o'", "csg_resample default flags are set for %s (flag-carrying tables: %s)" % (sorted(dflt), tabs), fm.loc())
         check_flag_match(rep, fm)
 
     # ---------------------------------------------------------------- R12.8 getInterval
@@ -281,13 +291,17 @@ def run(rep, tier):
                         "least-squares optimality of Fit and csg_resample's behaviour on data are not decided"]
 
 
+def nows(t):
+    return re.sub(r"\s+", "", t)
+
+
 def check_flag_match(rep, fm):
     """csg_resample copies the flag of the first input point that is not left of the output point, where 'not left' tolerates rounding of the
     generated grid.  The search loop's break condition touches the two abscissae only through comparisons: representatives decide that points
     which agree up to rounding match (also at x = 0, where a tolerance relative to the abscissa collapses), and distinct grid points do not."""
     from sympy.core.function import AppliedUndef
     from vsa.cases import decide
-    fo = Fold(fm, inline=False, opaque_types=r"Table").run()
+    fo = Fold(fm, opaque_types=r"Table").run()
     st = [e for e in fo.events if e["kind"] == "store" and re.match(r"^\w+\.flags\(\w+\)$", e["target"]) and str(getattr(e["value"], "func", "")) == "flags"]
     if len(st) < 2:
         rep.broken("R12.7", "csg_resample: the per-point flag copies were not found")
@@ -295,17 +309,31 @@ def check_flag_match(rep, fm):
     src = st[0]["value"].args[0]                     # the input table
     outs = {e["target"].split(".")[0] for e in st}
     cand = []
+
+    def both(c):
+        xs = [a_ for a_ in _atoms(c) if str(a_.func) == "x" and len(a_.args) == 2]
+        xin = [a_ for a_ in xs if a_.args[0] == src]
+        xout = [a_ for a_ in xs if str(a_.args[0]) in outs]
+        # the search advances the INPUT index: a comparison with a fixed input point (the skip of leading output points) is another loop
+        if xin and xout and len(set(xin)) == 1 and len(set(xout)) == 1 and any(re.search(r"@L\d+", str(x_)) for x_ in xin[0].args[1].free_symbols):
+            return (xin[0], xout[0])
+        return None
+
+    def conjuncts(c):
+        if isinstance(c, tuple) and c and c[0] == "&&":
+            return conjuncts(c[1]) + conjuncts(c[2])
+        return [c]
     for l in getattr(fo, "loops", []):
         for bc, _vals in l.get("breaks", []):
-            xs = [a_ for a_ in _atoms(bc) if str(a_.func) == "x" and len(a_.args) == 2]
-            xin = [a_ for a_ in xs if a_.args[0] == src]
-            xout = [a_ for a_ in xs if str(a_.args[0]) in outs]
-            if xin and xout and len(set(xin)) == 1 and len(set(xout)) == 1:
-                cand.append((l, bc, xin[0], xout[0]))
+            if both(bc):
+                cand.append((l, bc, True) + both(bc))            # the search stops when bc holds
+        cj = [c for c in conjuncts(l.get("cond")) if c is not None and both(c)]
+        if len(cj) == 1:
+            cand.append((l, cj[0], False) + both(cj[0]))          # the search goes on while cj holds: the match is its negation
     if len(cand) != 1:
         rep.broken("R12.7", "csg_resample: the search for the input point matching an output point was not found (%d candidates)" % len(cand))
         return
-    l, bc, xi, xo = cand[0]
+    l, bc, stops, xi, xo = cand[0]
     R = sp.Rational
     reps = [(R(0), R(11, 10 ** 17), True, "the input point 0 and the generated grid point 1.1e-16"),
             (R(3, 10), R(3, 10) + R(5, 10 ** 17), True, "0.3 and 0.3 + 5e-17"),
@@ -323,6 +351,7 @@ def check_flag_match(rep, fm):
         if t is None:
             rep.broken("R12.7", "csg_resample: cannot evaluate the match condition %s for %s" % (fo.cond_str(bc)[:160], txt))
             return
+        t = t if stops else (not t)
         if t != want:
             bad = "%s are %s as the same point by the search condition %s: on the input grid the point takes the flag of %s" % (
                 txt, "NOT recognised" if want else "treated", fo.cond_str(bc)[:200], "its right neighbour" if want else "a different point")
